@@ -27,6 +27,10 @@ CLAIMED = {
          "lock that guards the insert, generate only on miss edges inside that hold, and mutate the schema object resolved from the container; generators are referenced only by creators and each is one atomic "
          "increment; lookups consult mutable, immutable and persisted data before creating; counters are synced before dictionaries and postings before the series dictionary; prepare-flush swaps only onto an empty "
          "immutable; immutable is cleared only after a successful commit (new snapshot in the same hold); counter file writer/reader agree per role; plus the F8 freeze rule shared with C07 (known finding)."),
+ 'C12': ("static analysis: exactly-once path rules on the response counters, must-fact guards of the not-found tolerance and of completion, guarded-by for writes, lock-hold atomicity of the leaf's single reduce aggregator, provenance of the receiver index",
+         "Decides the accounting and merge-object structure that order/placement independence rests on: one decrement per handled response on every path and one expectation+tolerance per target, under the mutex; a not-found answer ignored only while the tolerance counter (not the response counter) is positive, every other error recorded, "
+         "only checked answers merged; done channel closed once, only when nothing is outstanding or an error is set; counters and aggregator written under the mutex; on a leaf the reduce aggregator is created only when absent, in the same hold in which it is used, and read from the shared field; receiver = hash(tags) mod receivers. "
+         "Commutativity/associativity of the numeric merge is not decided."),
  'C14': ("static analysis: RESET rule (fields dirtied outside a reuse entry must be re-initialised on every non-failing path of it, through helpers), provenance of pooled objects, aliasing check of the pooled snappy writer",
          "Decides only the reuse-history clause of the property: for 13 reusable encoder/decoder/buffer types every field, sub-object or array element written outside the reuse entry is re-initialised on every non-failing path of that entry; pooled encoders are reset before "
          "being handed out and pooled decoders are re-initialised before any other use at every call site; the pooled snappy writer returns a fresh copy taken before its buffer is reset. Losslessness of the codecs for arbitrary inputs is a numeric property and is not decided."),
